@@ -100,7 +100,7 @@ def verify(pid, x):
     head = sh(["git", "rev-parse", "HEAD"], cwd="/repo")[1].strip()
     if not os.path.exists(wt):
         sh(["git", "worktree", "add", "--detach", wt, head], cwd="/repo")
-    sh("git checkout -q -- . && git clean -fdq -e target && git checkout -q --detach %s" % head, cwd=wt)
+    sh("git reset -q --hard && git clean -fdq -e target && git checkout -q --detach %s" % head, cwd=wt)
     res = {"seed": "%s_%s" % (pid, x), "repo_head": head}
     ok0, o0 = run_demo(wt, sd)
     res["demo_passes_without_patch"] = ok0
